@@ -24,6 +24,8 @@ pub struct Plan {
     /// also read what the manifest records (its own free data, per-pack free data) through `tools::open_pack`, which
     /// opens pack files and container files but has no tail fallback (not for containers embedded after a prefix)
     pub manifest_free: bool,
+    /// walk packs and contents from the highest pack id down (the extra packs are then looked up before the main pack)
+    pub reverse: bool,
     /// also run the integrity checks
     pub checks: bool,
     /// hash content bytes (else only sizes)
@@ -72,7 +74,7 @@ pub fn plan_for(case: &ContCase, created: Option<&CreatedCont>) -> Plan {
     addrs.sort();
     addrs.dedup();
     let pack_ids = (0..top + 2).collect();
-    Plan { indexes, addrs, pack_ids, checks: true, bytes: true, manifest_free: true }
+    Plan { indexes, addrs, pack_ids, checks: true, bytes: true, manifest_free: true, reverse: false }
 }
 
 fn val_str(v: &Val) -> String {
@@ -128,6 +130,13 @@ pub fn dump_container(path: &Path, plan: &Plan) -> Dump {
         }
     };
     item(&mut d, "pack_count".into(), || Ok(container.pack_count().into_u16()), |v| v.to_string());
+    let mut pack_ids = plan.pack_ids.clone();
+    let mut addrs = plan.addrs.clone();
+    if plan.reverse {
+        pack_ids.reverse();
+        addrs.reverse();
+    }
+    let plan = &Plan { indexes: plan.indexes.clone(), addrs, pack_ids, checks: plan.checks, bytes: plan.bytes, manifest_free: plan.manifest_free, reverse: plan.reverse };
     for id in &plan.pack_ids {
         item(
             &mut d,
